@@ -21,9 +21,9 @@ from .flow import Engine
 # Which of the proposed fixes the code under /repo currently has.  The model is run with the same
 # switches (fix_conv, fix_fut, fix_clone in coq/Chan/Rendezvous.v).  Flip after applying a patch
 # from docs/rv.md.
-FIX_CONV = False    # F-07: to_sync/to_async carry the closed flag
-FIX_FUT = False     # F-35: futures test the handle's closed flag
-FIX_CLONE = False   # F-34: clone of a closed handle is closed
+FIX_CONV = True     # F-07: to_sync/to_async carry the closed flag
+FIX_FUT = True      # F-35: futures test the handle's closed flag
+FIX_CLONE = True    # F-34: clone of a closed handle is closed
 # (for trying a patched scratch copy together with VERIF_REPO: VERIF_RV_FIXMASK=111)
 _m = os.environ.get("VERIF_RV_FIXMASK")
 if _m and re.fullmatch(r"[01]{3}", _m):
